@@ -97,6 +97,19 @@ def execute(script):
                     emit(tag, repr(obj.lattice[tuple(args[1])]))
                 elif name == 'graphviz':
                     emit(tag, obj.lattice.graphviz().source)
+                elif name == 'badformat':
+                    # an unsupported format name / file suffix through every entry point that takes one
+                    bad = args[1]
+                    probes = [lambda: obj.tostring(bad), lambda: type(obj).fromstring('x', bad),
+                              lambda: obj.tofile('nowhere.' + bad, bad), lambda: type(obj).fromfile('nowhere.txt', bad),
+                              lambda: concepts.load('nowhere.' + bad), lambda: concepts.make_context('x', bad),
+                              lambda: concepts.Definition.fromfile('nowhere.' + bad),
+                              lambda: concepts.formats.Format[bad], lambda: concepts.formats.Format.infer_format('nowhere.' + bad)]
+                    for k, probe in enumerate(probes):
+                        try:
+                            emit(f'{tag}.{k}', repr(probe()))
+                        except Exception as e:  # noqa: BLE001
+                            emit(f'{tag}.{k}', f'raised {type(e).__name__}: {e}')
                 elif name == 'to_definition':
                     env[args[1]] = obj.definition()
                     emit(tag, repr(env[args[1]]))
